@@ -413,23 +413,57 @@ def lindell17 (primary secondary : Nat) : Spec where
     { round := 4, senders := .only [secondary], rcpts := .only [primary], uc := some .pair } ]
   joint := [{ name := "r", dep := .all }, { name := "s", dep := .all }]
   reads := fun id => if id == primary then "0S00" else "0SS"
+  peers := fun _ => 1
+  need := fun _ id =>
+    if id == primary then
+      -- steps of the primary: constructor, rounds 1, 3, 5
+      [{}, { once := [scalar "nonce share k1", scalar "Fischlin commitment nonces (rho = 16)" 16,
+                      rawBytes "witness of the commitment to R_1" 32] }, {}, {}]
+    else
+      -- steps of the secondary: constructor, rounds 2, 4
+      [{}, { once := [scalar "nonce share k2", scalar "Fischlin commitment nonces (rho = 16)" 16] },
+       { once := [rawBytes "mask rho in Z_(q^2)" 64,
+                  { what := "Paillier encryption nonce below the 3072-bit modulus (rejection sampling)",
+                    count := 1, size := 384, min := 384, lower := true }] }]
+  -- the ciphertext encoding repeats the public Paillier moduli
+  publicLeaves := ["r4.u:/c3/c/arithmetic/*", "r4.u:/c3/c/n/*", "r4.u:/c3/c/v/modulus/*"]
 
-/-- the ids inside an access-structure spec `th:<t>:<id,id,…>` -/
+/-- the numeric tokens of a text in which `,` `|` `(` `)` separate -/
+def numTokens (s : String) : List Nat :=
+  ((s.map fun c => if c == '|' || c == '(' || c == ')' then ',' else c).splitOn ",").filterMap String.toNat?
+
+/-- the holders named by an access-structure spec of the harness (`th:<t>:<ids>`, `un:<ids>`,
+    `cnf:<ids>|<ids>|…`, `hier:<t>:<ids>|<t>:<ids>|…`, `bool:<expr>`), without repetitions -/
 def specIds (s : String) : List Nat :=
-  match s.splitOn ":" with
-  | [_, _, ids] => (ids.splitOn ",").filterMap String.toNat?
-  | _ => []
+  let ids := match s.splitOn ":" with
+    | "th" :: _ :: rest => numTokens (":".intercalate rest)
+    | "hier" :: rest =>
+      ((":".intercalate rest).splitOn "|").flatMap fun (level : String) =>
+        match level.splitOn ":" with
+        | [_, xs] => numTokens xs
+        | _ => []
+    | _ :: rest => numTokens (":".intercalate rest)   -- un / cnf / bool (a gate name like th2 is not numeric)
+    | [] => []
+  ids.eraseDups
+
+/-- structures whose MSP gives several holders the SAME row (replicated pieces: CNF, the `or` gates
+    of a formula): there, and only there, the shares of two recipients may coincide -/
+def replicatedRows (spec : String) : Bool := spec.startsWith "cnf:" || spec.startsWith "bool:"
 
 /-- look a protocol up by the name and configuration token of the harness line -/
 def lookup (name cfg : String) (ids : List Nat) : Option Spec :=
   let parts := cfg.splitOn ";"
+  let shared (sp : Spec) (which : Nat) (pats : List String) : Spec :=
+    if replicatedRows (parts.getD which "") then { sp with sharedLeaves := pats } else sp
   match name with
   | "session" => some (session ids)
   | "dealer" => some (dealer (specIds (parts.getD 1 "")))
-  | "gennaro" => some (gennaro ids)
-  | "canetti" => some (canetti ids)
-  | "hjky" => some (hjky ids)
-  | "redistribute" => some (redistribute (specIds (parts.getD 1 "")) (specIds (parts.getD 2 "")))
+  | "gennaro" => some (shared (gennaro ids) 1 ["/share/blinding/#/r/fieldBytes", "/share/secret/#/m/fieldBytes"])
+  | "canetti" => some (shared (canetti ids) 1 ["/Share/value/#/fieldBytes"])
+  | "hjky" => some (shared (hjky ids) 1 ["/zeroShare/value/#/fieldBytes"])
+  | "redistribute" =>
+    some (shared (redistribute (specIds (parts.getD 1 "")) (specIds (parts.getD 2 ""))) 2
+      ["/NextShareContribution/value/#/fieldBytes"])
   | "lindell22-vanilla" => some (lindell22 ids false)
   | "lindell22-bip340" => some (lindell22 ids true)
   | "dkls23-bbot" => some (dkls23Bbot ids)
